@@ -35,3 +35,23 @@ def in_unit_interval(v):
 
 def finite(v):
     return V.f_isfinite(v)
+
+
+import z3 as _z3
+
+
+def exists_below(n, pred):
+    """exists 0 <= q < n . pred(q)   (z3 quantifier, or a loop when n is concrete)."""
+    n = V.simplify_scalar(n) if not isinstance(n, int) else n
+    if isinstance(n, int):
+        return V.b_or(*[pred(q) for q in range(n)])
+    q = _z3.Int(V.fresh_name("ex"))
+    return _z3.Exists([q], V.zbool(V.b_and(q >= 0, V.i_lt(q, n), pred(q))))
+
+
+def forall_below(n, pred):
+    n = V.simplify_scalar(n) if not isinstance(n, int) else n
+    if isinstance(n, int):
+        return V.b_and(*[pred(q) for q in range(n)])
+    q = _z3.Int(V.fresh_name("fa"))
+    return _z3.ForAll([q], V.zbool(V.b_implies(V.b_and(q >= 0, V.i_lt(q, n)), pred(q))))
